@@ -122,10 +122,11 @@ func c15Bases(c *vlib.Ctx) []CfgLit {
 		{"http://[::1]:9090", "http://127.0.0.1:*", "http://127.0.0.1:8080", "https://a.b."}, {"*", "https://a.b"}, {"https://xa.b", "https://a.b", "https://*.a.b:*", "https://*.xa.b"},
 		{"https://a.b:8080", "https://a.b:*", "https://a.b:81", "http://a.b:*", "https://*.a.b:81"},
 		{"https://*.a.b", "https://c.a.b:81", "https://d.c.a.b:*", "http://c.a.b:81"},
+		richOrigins,
 	}
-	ms := [][]string{nil, {"PUT", "patch", "DELETE"}, {"*", "PUT"}, {"QUERY", "query", "Query", "GET"}}
-	qs := [][]string{nil, {"X-B", "x-a", "X-C"}, {"*", "Authorization"}, {"*", "Authorization", "X-B", "x-a"}, {"Authorization", "X-A"}, {"*"}}
-	rs := [][]string{nil, {"X-R", "x-q", "X-S"}, {"*", "X-R"}}
+	ms := [][]string{nil, {"PUT", "patch", "DELETE"}, {"*", "PUT"}, {"QUERY", "query", "Query", "GET"}, richMethods}
+	qs := [][]string{nil, {"X-B", "x-a", "X-C"}, {"*", "Authorization"}, {"*", "Authorization", "X-B", "x-a"}, {"Authorization", "X-A"}, {"*"}, append([]string{"Authorization"}, richReqHdrs...)}
+	rs := [][]string{nil, {"X-R", "x-q", "X-S"}, {"*", "X-R"}, richResHdrs}
 	var out []CfgLit
 	for _, o := range os {
 		for _, m := range ms {
